@@ -161,6 +161,14 @@ theorem hs_token_list (l : List Elem) (hl : l ≠ []) (hwf : ∀ e ∈ l, e.wf) 
     tlcvOne (renderElems l) value = l.any (fun e => eqFoldC e.tok value) := tlcvOne_spec l hl hwf value
 
 open Oryx.Model.WsHs in
+/-- **`parseExtensions` reads back what the grammar of RFC 6455 section 9.1 writes**: a non-empty list of extensions
+(names and parameter names tokens, parameter values tokens or absent) written `name; key=value; key, name…` — the
+spelling the library itself uses in its offer and its answer — parses to exactly those extensions: the name under
+`""`, the parameters as a map (a repeated key keeps its last value). -/
+theorem hs_extension_list (es : List (Bytes × List (Bytes × Bytes))) (hne : es ≠ []) (hok : ∀ e ∈ es, ExtOK e) :
+    parseExtensions [renderExts es] = es.map extOf := parseExtensions_rendered es hne hok
+
+open Oryx.Model.WsHs in
 /-- The list parsers of util.go terminate: the fuel of the two loops is never exhausted. -/
 theorem hs_parsers_terminate (s value : Bytes) (acc : List Ext) :
     (tlcvOneF (s.length + 1) s value).isSome = true ∧ (parseExtValueF (s.length + 1) s acc).isSome = true :=
@@ -266,6 +274,9 @@ example : ∀ p ∈ [(ascii "Origin", [ascii "http://example.com"])],
 example : (parseURL (ascii "ws://[::1]/p?a?b")).map (fun u => (requestURI u, hostPortNoPort u)) =
     some (ascii "/p?a?b", (ascii "[::1]:80", ascii "[::1]")) := by decide +kernel
 example : parseURL (ascii "ws://user:pw@example.com/") = none := by decide +kernel
+/-- an extension list in the grammar's spelling: the hypotheses of `hs_extension_list` hold and the list reads back -/
+example : parseExtensions [renderExts [(ascii "foo", [(ascii "a", ascii "1"), (ascii "b", [])]), (pmd, [(ascii "client_max_window_bits", [])])]] =
+    [[([], ascii "foo"), (ascii "a", ascii "1"), (ascii "b", [])], [([], pmd), (ascii "client_max_window_bits", [])]] := by decide +kernel
 /-- a well-formed token list: `keep-alive , Upgrade` contains `upgrade` -/
 example : tlcvOne (renderElems [⟨[], ascii "keep-alive", [32]⟩, ⟨[32], ascii "Upgrade", []⟩]) (ascii "upgrade") = true := by
   decide +kernel
